@@ -5,7 +5,10 @@ The driver writes real spectra with Spectrum.to_file (plain and ".gz" names,
 precision 16..20, comments, current and pre-1.3 format), records the lines found
 on disk and what Spectrum.from_file returns; the same for
 Numerics.array_to_file / array_from_file and their cross uses, hand-written
-files, and pickle / copy.  TLC (Trace_SpectrumIO) decides every record.
+files, and pickle / copy.  Two deterministic blocks with their own seeds follow:
+labels that are adversarial for the header parser (label_cases) and several
+arrays written into / read back from ONE open handle (stream_cases).
+TLC (Trace_SpectrumIO) decides every record.
 """
 import copy, gzip, itertools, os, pickle, random, shutil, tempfile
 from fractions import Fraction
@@ -15,6 +18,13 @@ from .common import rat, rats
 
 PROP = 'C14'
 LABELS = ['YRI', 'pop 1', ' lead', 'trail ', 'a  b', '', 'folded', 'not unfolded x', '3', 'CEU-2', 'a#b', "it's", ' ', 'unfolded']
+# adversarial labels (own deterministic block, see label_cases): the header keywords as separate blank-delimited words,
+# number tokens (what the dimensions look like), leading / trailing / multiple blanks, tabs
+ADV_LABELS = ['not folded yet', ' folded ', 'was folded', 'folded again', 'folded  twice', 'un folded', 'unfolded now', ' unfolded', 'is unfolded ',
+              'not unfolded', 'folded unfolded', 'unfolded folded', '2 3', '7', ' 4 ', '10 20 30', '2  folded', 'folded 2 3', '3 unfolded 3', '0 folded 0',
+              '  ', 'a   b', '\tfolded', 'folded\t', 'x\tunfolded\ty', ' 5', '6 ', 'Folded', 'foldedx unfolded', 'folded', 'unfolded']
+ADV_WORDS = ['folded', 'unfolded', '2', '3', '10', '0', 'x', 'pop', 'un', 'Folded', 'nan', '#', '1e3', '-1']
+ADV_SEPS = [' ', ' ', ' ', '  ', '   ', '\t']
 COMMENTS = ['hello', '  padded  ', '', '# double hash', '3 folded "x"', 'tab\tinside', 'two  blanks', 'trailing tab\t', '2 2', 'nan inf']
 
 
@@ -56,6 +66,14 @@ def file_record(text, npre):
     if lines and lines[-1] == '':
         lines = lines[:-1]
     return {'pre': [chars(l) for l in lines[:npre]], 'body': [[tok(t) for t in l.split()] for l in lines[npre:]]}
+
+
+def text_lines(text):
+    """the text of (a part of) a file -> its lines, each with its characters and its whitespace-separated tokens"""
+    lines = text.split('\n')
+    if lines and lines[-1] == '':
+        lines = lines[:-1]
+    return [{'c': chars(l), 't': [tok(t) for t in l.split()]} for l in lines]
 
 
 def read_text(path):
@@ -255,6 +273,53 @@ def execute(op, inp, rid, tmpd):
             rec['out'] = {'a': {'sh': [int(x) for x in back.shape], 'd': rats(np.asarray(back, dtype=float).ravel())}, 'comments': [chars(c) for c in bc]}
         except Exception as e:
             rec['out'] = {'raised': type(e).__name__, 'msg': str(e)[:100]}
+    elif op == 'array_stream':
+        # several arrays written one after another into ONE file through open handles, read back one after another from ONE handle
+        rec['site'] = 'Numerics.array_to_file/array_from_file[stream]'
+        mode = inp['mode']
+        datas = []
+        for it in inp['items']:
+            a = it['a']
+            data = np.array([_val(x) for x in a['d']], dtype=float).reshape(a['sh'])
+            if any(a['m']):
+                data = np.ma.masked_array(data, mask=np.array(a['m'], dtype=bool).reshape(a['sh']), fill_value=np.nan)
+            datas.append((data, it['p'], [''.join(c) for c in it['comments']]))
+        path = os.path.join(tmpd, rid.replace('/', '_') + '.arrays')
+        reads, rest, at = [], None, 0
+
+        def read_some(fid):
+            nonlocal at
+            got = []
+            for at in range(inp['nread']):
+                back, bc = Numerics.array_from_file(fid, return_comments=True)
+                got.append({'a': {'sh': [int(x) for x in back.shape], 'd': rats(np.asarray(back, dtype=float).ravel())}, 'comments': [chars(c) for c in bc]})
+            return got, fid.read()
+        stage = 'write'
+        try:
+            if mode == 'append':           # a new handle (opened for appending) for every array
+                open(path, 'w').close()
+                for at, (data, p_, cm) in enumerate(datas):
+                    with open(path, 'a') as fid:
+                        Numerics.array_to_file(data, fid, precision=p_, comment_lines=cm)
+            elif mode == 'w+':             # one handle for writing and then reading
+                with open(path, 'w+') as fid:
+                    for at, (data, p_, cm) in enumerate(datas):
+                        Numerics.array_to_file(data, fid, precision=p_, comment_lines=cm)
+                    fid.seek(0)
+                    stage = 'read'
+                    reads, rest = read_some(fid)
+            else:                          # one handle for all writes, another one for all reads
+                with open(path, 'w') as fid:
+                    for at, (data, p_, cm) in enumerate(datas):
+                        Numerics.array_to_file(data, fid, precision=p_, comment_lines=cm)
+            if mode != 'w+':
+                stage = 'read'
+                with open(path, 'r') as fid:
+                    reads, rest = read_some(fid)
+        except Exception as e:
+            rec['out'] = {'raised': type(e).__name__, 'stage': stage, 'at': at, 'msg': str(e)[:100]}
+            return rec
+        rec['out'] = {'lines': text_lines(read_text(path)), 'reads': reads, 'rest': text_lines(rest)}
     elif op == 'pickle':
         rec['site'] = 'pickle(Spectrum)'
         fs = build(inp['s'], inp.get('layout', 'c'), inp.get('lkey', 0))
@@ -531,6 +596,86 @@ def boundary_cases(ctx, rng):
     return out
 
 
+def adv_label(rng):
+    """a label composed of the header keywords, number tokens and other words, separated / surrounded by blanks"""
+    words = [rng.choice(ADV_WORDS) for _ in range(rng.choice([1, 2, 2, 3, 3, 4]))]
+    if not any(w in ('folded', 'unfolded') or w.isdigit() for w in words):
+        words[rng.randrange(len(words))] = rng.choice(['folded', 'unfolded', '2'])
+    lab = words[0]
+    for w in words[1:]:
+        lab += rng.choice(ADV_SEPS) + w
+    return rng.choice(['', '', ' ', '  ']) + lab + rng.choice(['', '', ' ', '  '])
+
+
+def label_cases(ctx):
+    """Deterministic block (own RNG, both tiers): labels containing blanks in every adversarial way for the header parser - the keywords
+    folded / unfolded as separate words, number tokens, leading / trailing / multiple blanks - on folded and unfolded spectra,
+    plain and gzip, 1-3 dimensions, written by to_file and by hand (irregular blanks)."""
+    rng = random.Random(ctx.seed + 1400)
+    out = []
+    shapes = {1: [4], 2: [2, 3], 3: [2, 1, 2]}
+
+    def spectrum(nd, f, labels):
+        sh = shapes[nd]
+        size = int(np.prod(sh))
+        m = [rng.random() < 0.25 for _ in range(size)]
+        return {'sh': sh, 'd': rats([float(rng.randint(0, 99)) / rng.choice([1, 4, 7]) for _ in range(size)]), 'm': m, 'f': f, 'ids': [chars(l) for l in labels]}
+    # every fixed label on a folded and on an unfolded spectrum, plain and gzip; dimension count and position of the label cycle
+    for j, lab in enumerate(ADV_LABELS):
+        for gz in (False, True):
+            for f in (False, True):
+                t = 4 * j + 2 * int(gz) + int(f)
+                nd = 1 + t % 3
+                labels = [rng.choice(['A', 'pop 1', 'x', '']) for _ in range(nd)]
+                labels[(t // 3) % nd] = lab
+                out.append(('roundtrip', {'s': spectrum(nd, f, labels), 'p': 16, 'comments': [chars(c) for c in ([] if t % 4 else ['unfolded 2 "folded"'])],
+                                          'fmi': True, 'gz': gz, 'mc': t % 5 == 0, 'layout': 'c', 'lkey': 0}))
+    # composed labels on every axis
+    n_rand = 60 if ctx.quick else 600
+    for t in range(n_rand):
+        nd = 1 + t % 3
+        f = (t // 3) % 2 == 1
+        labels = [adv_label(rng) if rng.random() < 0.8 else rng.choice(ADV_LABELS) for _ in range(nd)]
+        out.append(('roundtrip', {'s': spectrum(nd, f, labels), 'p': 16, 'comments': [], 'fmi': True, 'gz': (t // 6) % 2 == 1, 'mc': False,
+                                  'layout': 'c', 'lkey': 0}))
+    # the same kind of labels in hand-written current-format files with irregular blanks
+    n_hand = 24 if ctx.quick else 240
+    for t in range(n_hand):
+        nd = 1 + t % 3
+        f = (t // 3) % 2 == 1
+        labels = [ADV_LABELS[(7 * t + q) % len(ADV_LABELS)] if q == t % nd else adv_label(rng) for q in range(nd)]
+        s_ = spectrum(nd, f, labels)
+        style = ['plain', 'wide', 'tab'][(t // 2) % 3]
+        text = new_text(rng, s_, 17, [], style)
+        out.append(('from_file', {'file': file_record(text, 1), 'text': text, 'mc': False, 'gz': (t // 6) % 2 == 1, 'origin': 'current ' + style + ' adversarial labels'}))
+    return out
+
+
+def stream_cases(ctx):
+    """Deterministic block (own RNG, both tiers): 2-3 arrays of different shapes, with comment lines, written with array_to_file into
+    ONE file through open handles and read back with successive array_from_file calls on ONE handle."""
+    rng = random.Random(ctx.seed + 1401)
+    out = []
+    n_s = 36 if ctx.quick else 360
+    for t in range(n_s):
+        k = 2 + t % 2
+        shapes = []
+        while len(shapes) < k:
+            sh = rand_shape(rng, True)
+            if sh not in shapes:
+                shapes.append(sh)
+        items = []
+        for j, sh in enumerate(shapes):
+            n = int(np.prod(sh))
+            masked = rng.random() < 0.3
+            m = [masked and rng.random() < 0.4 for _ in range(n)]
+            ncom = [0, 1, 2, 3][(t + j) % 4] if t % 5 else 0          # every fifth stream has no comment line at all: number lines only
+            items.append({'a': {'sh': sh, 'd': rats([rand_value(rng) for _ in range(n)]), 'm': m}, 'p': rng.choice([16, 17, 20]),
+                          'comments': [chars(rng.choice(COMMENTS)) for _ in range(ncom)]})
+        out.append(('array_stream', {'items': items, 'nread': k if t % 3 else rng.randint(0, k - 1), 'mode': ['reopen', 'w+', 'append'][(t // 2) % 3]}))
+    return out
+
+
 def cross_cases(recs):
     """files produced by one writer given to the other reader (pre-1.3 consistency): built from recorded files"""
     out = []
@@ -566,6 +711,11 @@ def records(ctx):
         base = len(recs)
         for n, (op, inp) in enumerate(cross_cases(recs)):
             recs.append(execute(op, inp, 'x%s-%d' % (op, base + n), tmpd))
+        # deterministic blocks with their own seeds, appended so that the records above keep their ids and contents
+        for n, (op, inp) in enumerate(label_cases(ctx)):
+            recs.append(execute(op, inp, 'lab-%s-%d' % (op, n), tmpd))
+        for n, (op, inp) in enumerate(stream_cases(ctx)):
+            recs.append(execute(op, inp, 'stream-%d' % n, tmpd))
         return recs
     finally:
         shutil.rmtree(tmpd, ignore_errors=True)
@@ -579,6 +729,9 @@ def nontrivial(r):
         return ('rt', tuple(s['sh']), s['f'], tuple(''.join(l) for l in s['ids']), i['p'], len(i['comments']), i['fmi'], i['gz'], i['mc'], tuple(s['m']), i.get('layout'), i.get('how'))
     if r['op'] in ('from_file', 'array_from_file'):
         return (r['op'], i['origin'], i.get('gz'), i.get('mc'), len(i['file']['pre']), len(i['file']['body'][0]) if i['file']['body'] else 0)
+    if r['op'] == 'array_stream':
+        return ('stream', tuple(tuple(it['a']['sh']) for it in i['items']), tuple(len(it['comments']) for it in i['items']),
+                tuple(any(it['a']['m']) for it in i['items']), tuple(it['p'] for it in i['items']), i['nread'], i['mode'])
     if r['op'] == 'array_roundtrip':
         return ('arr', tuple(i['a']['sh']), any(i['a']['m']), i['p'], len(i['comments']), i.get('layout'), i.get('how'), i.get('dtype'))
     s = i['s']
@@ -622,6 +775,18 @@ def mutate(rec):
             return rec
         out['comments'] = out['comments'] + [['x']]
         return rec
+    if op == 'array_stream':
+        kind = sum(map(ord, rec['id'])) % 3
+        if kind == 0 and out['rest']:
+            out['rest'] = out['rest'][1:]                       # the handle was left one line too far
+            return rec
+        if kind == 1 and len(out['reads']) >= 2:
+            out['reads'][0], out['reads'][1] = out['reads'][1], out['reads'][0]      # arrays returned in the wrong order
+            return rec
+        if out['reads'] and bump(out['reads'][-1]['a']['d']):
+            return rec
+        out['rest'] = out['rest'] + [{'c': ['1', ' '], 't': ['1']}]
+        return rec
     if op == 'pickle':
         out['s']['m'][-1] = not out['s']['m'][-1]
         return rec
@@ -650,9 +815,15 @@ def run(ctx):
              'folded flag, labels with blanks / the words folded, unfolded / empty, 0-5 comments, precision 16-20, plain and .gz names, current and '
              'pre-1.3 format, mask_corners on/off) plus every mask of the small shapes of the exhaustive model; hand-written pre-1.3 and '
              'irregular-blank files; array_to_file/array_from_file incl. masked arrays; files of one writer given to the other reader; '
-             'pickle protocols 0-5, copy, deepcopy. Most 2-5-D objects written / pickled are NOT C-contiguous in memory (Fortran-ordered input, '
+             'pickle protocols 0-5, copy, deepcopy; a deterministic block of labels adversarial for the header parser (the words folded / unfolded '
+             'as separate blank-delimited words, number tokens, leading / trailing / multiple blanks, tabs) on folded and unfolded 1-3-D spectra, '
+             'plain and gzip, written by to_file and by hand; streams of 2-3 arrays of different shapes (0-3 comment lines each, masked entries, '
+             'nan/inf, own precision) written with array_to_file into ONE file through open handles (one handle, a w+ handle, append handles) '
+             'and read back by 0..k successive array_from_file calls on ONE handle, with what is then left in the handle. Most 2-5-D objects written / pickled are NOT C-contiguous in memory (Fortran-ordered input, '
              'fs.transpose, fs.reorder_pops, strided slices of a larger Spectrum); the record holds the logical array. Distinct by the full option tuple incl. layout',
         assumptions=['BigInteger rational arithmetic of the Rat override (self-tested against the TLA+ definitions)',
                      'number tokens of a file are recorded as the exact rational value of their decimal text',
                      'written precision: |token - v| <= 5*10^-p |v|; read back: additionally TauParse = 2.5e-16 relative for the decimal->double conversion',
-                     'blanks between header items are not significant (the header is compared after parsing); labels contain no double quote'])
+                     'blanks between header items are not significant (the header is compared after parsing); labels contain no double quote',
+                     'streams of arrays use real text-mode file objects (array_to_file / array_from_file go through numpy tofile / fromfile, '
+                     'which need an OS-level file); the position of a handle is observed as the text that a following read() returns'])
